@@ -1,7 +1,7 @@
 (* C11 - structured control flow goes exactly where the source says. Property theorems only. Machine-level simulation of if-chains and loops against the definitional semantics for fragment F2 (proofs/CompileCorrectC.v, CompileCorrectD.v): exactly one branch, the branch's value, no residue after ANY number of iterations, stop/volgende semantics; code-generator facts for every compiler state (proofs/ControlProofs.v); Return at machine level (VMStepProofs.v). Functions and heap values inside loops are outside F2 and are decided per program against Sem.v. *)
-From NL.Model Require Import Compiler VM.
-From NL.Spec Require Import Sem Fragment2.
-From NL.Proofs Require ControlProofs VMStepProofs CompilerTotal CompileCorrectC CompileCorrectD.
+From NL.Model Require Import Compiler VM Pipeline.
+From NL.Spec Require Import Sem Fragment Fragment2 Fragment2h Fragment3.
+From NL.Proofs Require ControlProofs VMStepProofs CompilerTotal CompileCorrectC CompileCorrectD CompileCorrectI CompileCorrectH5.
 Import ControlProofs.
 Open Scope Z_scope.
 
@@ -28,6 +28,14 @@ Proof. exact CompileCorrectD.loop_contains_stop. Qed.
 (* all of it end to end for programs of fragment F2 *)
 Theorem compile_correct_F2 : forall (orc : oracle) (p : block), in_F2 p = true -> ends_expr p = true -> forall bc : bytecode, compile p = Ok bc -> forall fuel : nat, (size2_b p <= fuel)%nat -> sem_program orc fuel p <> SemFuel -> exists budget : nat, obs_eq (run_program orc bc budget) (sem_program orc fuel p).
 Proof. exact CompileCorrectD.compile_correct_F2. Qed.
+
+(* the same with FUNCTIONS: antwoord leaves exactly the function it stands in, from any depth of loops and branches; stop / volgende inside a function body concern that body's loops only; recursion (two excluded run-time events: 16-bit stack limits, == on function values) *)
+Theorem compile_correct_F3 : forall (orc : oracle) (p : block), in_F3 p = true -> ends_expr p = true -> forall bc : bytecode, compile p = Ok bc -> forall fuel : nat, (size3_b p <= fuel)%nat -> sem_program orc fuel p <> SemFuel -> (forall out : text, sem_program orc fuel p <> SemError EArgumentError out) -> (exists budget : nat, obs_eq3 (run_program orc bc budget) (sem_program orc fuel p)) \/ hits_excluded orc bc.
+Proof. exact CompileCorrectI.compile_correct_F3. Qed.
+
+(* the same for top-level programs over heap values and builtins: branches and loops whose conditions and bodies print, index and build arrays go where the semantics says, output included *)
+Theorem compile_correct_F2h : forall (orc : oracle) (p : block), in_F2h p = true -> ends_expr p = true -> lits_exact (lits_b p) -> forall bc : bytecode, compile p = Ok bc -> forall fuel : nat, (size2h_b p <= fuel)%nat -> sem_program orc fuel p <> SemFuel -> sem_small orc fuel p (length (b_constants bc)) -> exists budget : nat, obs_eq_h (run_program orc bc budget) (sem_program orc fuel p).
+Proof. exact CompileCorrectH5.compile_correct_F2h. Qed.
 
 (* stop acts on the innermost enclosing loop only: the jump it emits is recorded in the LAST loop context, outer contexts are untouched *)
 Theorem break_innermost : forall st st' : cstate, compile_statement SBreak st = Ok st' -> exists (outer : list loopctx) (ctx : loopctx), c_loops st = outer ++ [ctx] /\ c_loops st' = outer ++ [{| l_start := l_start ctx; l_breaks := l_breaks ctx ++ [code_len st + 1] |}] /\ c_code st' = c_code st ++ ControlProofs.break_code /\ c_symbols st' = c_symbols st /\ c_constants st' = c_constants st.
@@ -84,6 +92,8 @@ Print Assumptions while_no_residue.
 Print Assumptions break_continue_semantics.
 Print Assumptions loop_contains_stop.
 Print Assumptions compile_correct_F2.
+Print Assumptions compile_correct_F3.
+Print Assumptions compile_correct_F2h.
 Print Assumptions break_innermost.
 Print Assumptions continue_innermost.
 Print Assumptions break_outside_loop.
